@@ -1,12 +1,12 @@
 #!/bin/bash
 # tools/selftest.sh - binding demonstration: every seeded breaking change under /verif/seeded (round 1: seeded/<name>/,
-# round 2: seeded/r2/<Cxx>_break_N/) must be detected (exit 1) by the quick command of its property, every benign change
+# round 2 / 3: seeded/r2/<Cxx>_break_N/, seeded/r3/<Cxx>_break_N/) must be detected (exit 1) by the quick command of its property, every benign change
 # (seeded/r2/<Cxx>_benign_N/) must leave it quiet (exit 0), and the same command must be quiet on the unchanged tree.
 # Applies each patch to /repo, runs the check, and reverts (`git -C /repo checkout -- .`).  Writes seeded/SUMMARY.json.
 cd /verif
 git -C /repo diff --quiet || { echo "/repo has uncommitted changes"; exit 2; }
 echo "[" > /tmp/selftest.json; first=1; fail=0
-for d in seeded/C*/ seeded/r2/C*/; do
+for d in seeded/C*/ seeded/r2/C*/ seeded/r3/C*/; do
   [ -f $d/patch.diff ] || continue
   n=$(basename $d)
   if [ -f $d/meta.json ]; then p=$(python3 -c "import json;print(json.load(open('$d/meta.json'))['property'])"); else p=${n%%_*}; fi
